@@ -202,7 +202,7 @@ def opt_probe_grammars():
     # pest_meta: "cannot repeat 0 times"); no skip rules, so that nothing here is near F-OPT-3
     add("o_zero", 'item = { "x" }\nlst = { "[" ~ item{0,} ~ "]" }\nsign = { "-"{0,} }\nnum = ${ sign ~ "5" }\n'
                   'r1 = { "a"{1,} ~ "b" }\nr01 = { "a"{0,1} ~ "b" }\nr2 = { "a"{2} ~ "b" }\nr02 = @{ "a"{0,2} ~ "b" }\n'
-                  'r0n = { ("a" | "b"){0,} ~ "c" }\nr1n = { (item ~ "a"){1,} }\nr3 = { "a"{3,} ~ "b"? }\nrn = { (item{0,}){0,1} ~ "b" }\n')
+                  'r0n = { ("a" | "b"){0,} ~ "c" }\nr1n = { (item ~ "a"){1,} }\nr3 = { "a"{3,} ~ "b"? }\nrn = { (item{0,} ~ "y"){0,1} ~ "b" }\n')
     add("o_zero_atomic", 'w = @{ "a"{0,} ~ "b" }\nx = ${ ("a" ~ "a"){0,} ~ "b"{1,} }\ny = !{ "a"{0,} ~ "b"{0,1} ~ "c" }\n')
     add("o_minmax", 'r = { "a"{2,1} ~ "b" }\nr2 = { "a"{3,1} }\nr3 = @{ ("a" | "b"){2,1} ~ "c"? }\n')
     add("o_passes", r'''
@@ -215,6 +215,88 @@ skp = @{ (!("x" | "yz") ~ ANY)* ~ "x" }
 rst = { (PUSH("a") ~ "b")? ~ (PUSH("c") | "a") ~ (PUSH("a") ~ "z")* }
 ''')
     return gs
+
+
+# ---------------------------------------------------------------------------------------------
+# the `grammar-extras` cargo feature: node tags
+
+EXTRAS_RUNNER_DIR = os.path.join(HERE, "opts_runner_extras")
+EXTRAS_RUNNER = os.path.join(corpus.TARGET, "debug", "opts_runner_extras")
+EXTRAS_TGEN_DIR = os.path.join(HERE, "tgen_tool_extras")
+EXTRAS_TGEN = os.path.join(corpus.TARGET, "debug", "tgen_tool_extras")
+
+EXTRAS_SETS = [
+    OptSet("xdefault"),
+    OptSet("xtagged", extra="#[emit_tagged_node_reference]"),
+    OptSet("xtaggedfull", emit_rule_reference=True, no_warnings=True, extra="#[emit_tagged_node_reference] #[truncate_getter_at_node_tag = false]"),
+    OptSet("xrawtagged", pest_optimizer=False, extra="#[emit_tagged_node_reference]"),
+    OptSet("xboxtagged", box_only_if_needed=True, emit_rule_reference=True, extra="#[emit_tagged_node_reference]"),
+]
+
+
+# F-TAG-SKIP (fixed in /repo by 0591c20): with `grammar-extras` and `#[emit_tagged_node_reference]` a tag on an expression that
+# pest_meta's `skip` pass rewrites to `Skip([...])` — `c = @{ "#" ~ #body = (!"#" ~ ANY)* }` — made the derive output fail to compile
+# (E0106: the emitted alias `tags::c::body` named `generics::Skip::<w>` without its lifetime).  The witness stays in the corpus.
+TAG_SKIP_WITNESS = True
+
+
+def untag(text):
+    return re.sub(r"#\w+\s*=\s*", "", text)
+
+
+def tagged_grammars():
+    """Grammars with node tags (`#tag = e`, only meaningful with `grammar-extras`); each comes with its untagged twin:
+    a tag names a sub-expression for the accessor API and must change neither the emitted rule types nor any parse."""
+    src = {
+        "x_tags": 'a = { #first = "a" ~ #rest = b* }\nb = { #x = ("b" | c) }\nc = @{ #digits = "c"+ }\n'
+                  'd = { (#l = a ~ "+" ~ #r = a) | #single = b }\nWHITESPACE = _{ " " }\n',
+        "x_tags_nested": 'top = { #whole = (#head = item ~ (#sep = "," ~ #tail = item)*) }\nitem = ${ #neg = "-"? ~ #num = digit+ }\n'
+                         'digit = { #d = \'0\'..\'9\' }\nopt = !{ #o = (#i = item)? ~ #p = &"x" ~ #n = !"y" ~ #any = ("z" | item) }\n',
+        "x_tags_rec": 'e = { #lhs = t ~ (#op = ("+" | "-") ~ #rhs = t)* }\nt = { #lit = "n" | "(" ~ #inner = e ~ ")" }\n'
+                      's = { #pushed = PUSH("a"+) ~ PEEK ~ #gone = ("g" ~ POP) }\nWHITESPACE = _{ " " }\nCOMMENT = @{ "#" ~ (!"#" ~ ANY)* ~ #close = "#" }\n',
+    }
+    if TAG_SKIP_WITNESS:
+        src["x_tags_skip"] = 'c = @{ "#" ~ #body = (!"#" ~ ANY)* }\n'
+    out = []
+    for gid, text in src.items():
+        out.append(({"gid": gid + "_t", "text": text}, {"gid": gid + "_p", "text": untag(text)}))
+    return out
+
+
+def reponce_grammars():
+    """With `grammar-extras` pest_meta's optimizer keeps `e+` as `OptimizedExpr::RepOnce` (feature-only arm of
+    `optimized_rule.rs`); for rules on which no other pass fires the optimized path must then emit the very type the raw
+    path emits (`rule.rs`, `Expr::RepOnce`)."""
+    return [{"gid": "x_reponce", "text": 'a = { "a"+ }\nb = @{ ("b" | "c")+ }\nc = ${ a+ ~ "x" }\nd = !{ (a ~ b)+ }\ne = _{ (!"z" ~ a)+ }\n'
+                                          'WHITESPACE = _{ " " }\n'}]
+
+
+def build_extras():
+    for d in (EXTRAS_RUNNER_DIR, EXTRAS_TGEN_DIR):
+        lock = os.path.join(d, "Cargo.lock")
+        if not os.path.exists(lock):
+            subprocess.check_call(["cp", "/repo/Cargo.lock", lock])
+        p = subprocess.run(["cargo", "build", "--offline", "-q"], cwd=d, env=corpus.ENV, capture_output=True, text=True)
+        if p.returncode != 0:
+            raise RuntimeError(f"{os.path.basename(d)} (feature grammar-extras) does not build:\n" + p.stderr[-3000:])
+
+
+def emit_extras(pairs, optsets, outdir, tag=""):
+    """One cargo workspace whose crates depend on pest_typed_derive WITH `grammar-extras` (a workspace of its own: cargo
+    unifies features inside one workspace).  Returns {set name: (prefix, where)}."""
+    grammars = [g for pr in pairs for g in pr]
+    lay = emit_all(grammars, optsets, outdir, 1, tag=tag + "x")
+    for s in optsets:
+        toml = os.path.join(outdir, s.name, "b0", "Cargo.toml")
+        t = open(toml).read()
+        t2 = t.replace('pest_typed_derive = { path = "/repo/derive" }', 'pest_typed_derive = { path = "/repo/derive", features = ["grammar-extras"] }')
+        # pest_meta's feature is unified over the whole build: pest_generator (behind pest_derive) must get it too
+        t2 = t2.replace('pest_derive = "=2.7.14"', 'pest_derive = { version = "=2.7.14", features = ["grammar-extras"] }')
+        if "grammar-extras" not in t2 or t2.count("grammar-extras") < 2:
+            raise RuntimeError("emit_extras: the pest_typed_derive / pest_derive dependency lines were not found in " + toml)
+        if t2 != t:
+            open(toml, "w").write(t2)
+    return lay
 
 
 def documented_grammars():
@@ -352,11 +434,16 @@ def build_runner():
     return RUNNER
 
 
-def token_streams(grammars, optset):
-    """One process: {gid: ("OK"|"PANIC", text)} and the raw stdout bytes."""
+def token_streams(grammars, optset, runner=None, file_dir=None):
+    """One process: {gid: ("OK"|"PANIC", text)} and the raw stdout bytes.  `file_dir`: derive through
+    `#[grammar = "<file>"]` (grammar files written there) instead of `grammar_inline`."""
     inp = "".join(f"{g['gid']}\t{corpus.hexs(g['text'])}\n" for g in grammars)
     env = dict(os.environ)
-    p = subprocess.run([RUNNER, optset.attrs], input=inp.encode(), capture_output=True, env=env)
+    env.pop("OPTS_RUNNER_FILE_DIR", None)
+    if file_dir:
+        os.makedirs(file_dir, exist_ok=True)
+        env["OPTS_RUNNER_FILE_DIR"] = file_dir
+    p = subprocess.run([runner or RUNNER, optset.attrs], input=inp.encode(), capture_output=True, env=env)
     out = {}
     for line in p.stdout.decode("utf-8", "replace").splitlines():
         f = line.split("\t", 2)
@@ -381,6 +468,13 @@ def boxed_flags(stream):
     return res
 
 
+def after_first_item(stream):
+    """The token stream without its first item (`const _PEST_GRAMMAR_<name>: [&str; N] = […];`, the only place where the
+    grammar source — inline text or `include_str!` of a file — shows)."""
+    k = stream.find("] ; ")          # `… : [&'static str ; N] = […] ;` — the `;` inside the array type is followed by the length
+    return stream[k + 4:] if k >= 0 else stream
+
+
 def strip_boxing(stream):
     """The token stream with every storage decision erased: the `$boxed` argument of `rule!` and the
     getters' `& * self . content` / `& self . content`."""
@@ -390,7 +484,8 @@ def strip_boxing(stream):
 
 def storage_diff(a, b, limit=3):
     """Token-wise comparison of two token streams that may differ in the storage decision only.  Allowed differences:
-    a `true` / `false` literal against the other one (the `$boxed` argument of `rule!`), and a dereference `*` that one
+    a `true)` / `false)` token against the other one (a boolean LAST argument of a macro invocation: the `$boxed` argument of
+    `rule!`; `$atomicity` is followed by a comma and may not differ), and a dereference `*` that one
     side has directly after `&` (`&*self.content` against `&self.content`).  Returns the list of the first other
     differences (empty = equal up to storage); independent of local variable names, item order and argument counts."""
     ta, tb = a.split(" "), b.split(" ")
@@ -400,7 +495,7 @@ def storage_diff(a, b, limit=3):
         x, y = ta[i], tb[j]
         if x == y:
             i += 1; j += 1
-        elif {x, y} == {"true", "false"}:
+        elif {x, y} == {"true)", "false)"}:          # `… , Both , true) ;`: the last argument of a macro invocation
             i += 1; j += 1
         elif x == "*" and i > 0 and ta[i - 1] == "&" and i + 1 < len(ta) and ta[i + 1] == y:
             i += 1
